@@ -901,7 +901,7 @@ def check_toidentifier(r, repo, rule):
         raise AnalysisError("toidentifier: the byte-wise encoding of numpy floats was not found")
 
 
-def check_list_argument_unpacking(r, repo, rule="R5.12"):
+def check_list_argument_unpacking(r, repo, rule="R5.14"):
     """PrinterBase.init_arguments unpacks the items of a list argument into their own variables.  Interpreted (sa/absint.py) on a
     list argument with three items for every subset of items the body needs and both settings of force_cast_arguments: the
     variable of item k must be bound to element k of the caller's list - `make_getitem(arg, k)`, resp. the cast of `arg[k]` -
@@ -989,6 +989,38 @@ def check_list_argument_unpacking(r, repo, rule="R5.12"):
          f"{bad}: the variable of an item must be bound to element k of the caller's list (a cast applied to the printed item reads the item's own, still unbound variable; an index from a filtered enumeration picks the wrong element)", loc(REL_, g))
 
 
+def check_nonfinite_literals(r, repo, rule="R5.13"):
+    """A constant whose value is a non-finite Python float reaches the printer's make_constant as the float itself; str(inf) is
+    `inf`, which is not a bound name in generated Python or NumPy source.  make_constant of the Python and NumPy targets is
+    interpreted (sa/absint.py) on inf, -inf and nan: the text it returns must not contain a bare `inf` / `nan` token (it must be
+    qualified - math.inf, numpy.inf - or wrapped in a call such as float("inf"))."""
+    import re as _re
+    from sa.absint import Interp, Closure, Unsupported as IUnsupported, PyRaise
+
+    for target in ("python", "numpy"):
+        rel = f"targets/{target}.py"
+        g = repo.func(rel, "Printer.make_constant")
+
+        class Self_:
+            __absint_host__ = True
+
+            def get_type(self, e):
+                return f"{target}.T"
+
+        for val in (float("inf"), float("-inf"), float("nan")):
+            I = Interp(repo)
+            try:
+                out = I.call(Closure(g, {}, I, rel, bound_self=None), [Self_(), "LIKE", val])
+            except (IUnsupported, PyRaise, TypeError) as e:
+                raise AnalysisError(f"{rel}::Printer.make_constant is not interpretable on {val!r}: {getattr(e, 'what', e)}")
+            txt = str(out)
+            stripped = _re.sub(r"""(['"])[^'"]*\1""", "", txt)  # text inside string literals is data, e.g. float("inf")
+            bare = _re.search(r"(?<![\w.])(inf|nan)\b", stripped)
+            r.ob(rule, f"{rel}::Printer.make_constant spells {val!r} with a bound name", bare is None,
+                 f"make_constant returns `{txt}` for the value {val!r}: the bare token `{bare.group(1) if bare else ''}` is not a name in the generated source, which raises "
+                 "NameError when the function is called", loc(rel, g))
+
+
 def run(repo, tier):
     r = Report("C05", tier, repo, level="other", design_ref="§3/C05")
     r.explanation = (
@@ -1009,7 +1041,8 @@ def run(repo, tier):
     r.rule("R5.7", "numeric literals are materialised in the type of their `like` operand on every path of make_constant", floor=2)
     r.rule("R5.8", "generic printer: a ref is returned only when defined; assigned once, before use, and then marked defined", floor=8)
     r.rule("R5.9", "every freshly generated reference name is registered, and registration never reuses a name that is taken", floor=5)
-    r.rule("R5.12", "items of a list argument are unpacked by their position in the caller's list, for every subset of needed items and both settings of force_cast_arguments (interpreted)", floor=1)
+    r.rule("R5.13", "non-finite float literals are spelled with names that are bound in the generated Python / NumPy source (make_constant interpreted on inf, -inf, nan)", floor=6)
+    r.rule("R5.14", "items of a list argument are unpacked by their position in the caller's list, for every subset of needed items and both settings of force_cast_arguments (interpreted)", floor=1)
     r.rule("R5.10", "operands are substituted into templates in order, unsliced", floor=1)
     r.rule("R5.11", "templates compose: wherever an operand field is spliced bare, every template of the target binds tighter than the surrounding operator", floor=3)
 
@@ -1034,4 +1067,5 @@ def run(repo, tier):
     sub = C08.run(repo, tier)
     r.absorb(sub, {"R8.1": "R5.12", "R8.2": "R5.12"}, "the static type the printers declare for every kind and operand dtype tuple equals the type the target computes (shared clause with C08: R8.1, R8.2)", floor=100)
     check_list_argument_unpacking(r, repo)
+    check_nonfinite_literals(r, repo)
     return r
